@@ -37,6 +37,7 @@ void vsim_sid_set_ticket_len(struct sslSessionId *sid, int n);
 unsigned char *vsim_sid_psk_id(struct sslSessionId *sid, int *len);
 unsigned char *vsim_sid_psk_key(struct sslSessionId *sid, int *len);
 int vsim_encode_hello_request(ssl_t *ssl);
+void vsim_poke_tls13_using_psk(ssl_t *ssl);
 #ifdef __cplusplus
 }
 #endif
